@@ -52,7 +52,7 @@ STRESS_SCENARIOS = {
     "C09": (["blocking", "cancel", "backlog", "late", "stale"], 0, ["blocking", "cancel", "backlog", "late", "stale"], 0),
     "C10": (["late", "blocking", "lazyfut", "stale"], 0, ["late", "blocking", "lazyfut", "stale"], 0),
     "C11": (["ids", "refs", "selfchain", "afterend", "queuedask"], 0, ["ids", "refs", "selfchain", "afterend", "queuedask"], 0),
-    "C12": (["ids", "hookpanic", "askjoin", "queuedask", "backlog"], 0, ["ids", "hookpanic", "askjoin", "queuedask", "backlog"], 0),
+    "C12": (["ids", "hookpanic", "askjoin", "queuedask", "backlog", "afterend"], 0, ["ids", "hookpanic", "askjoin", "queuedask", "backlog", "afterend"], 0),
     "C13": (["blocking", "replyclose", "mix", "stale"], 4, ["blocking", "replyclose", "mix", "stale"], 60),
     "C16": (["lazyfut", "blocking", "erasedblk", "refs", "hookpanic"], 0, ["lazyfut", "blocking", "erasedblk", "refs", "hookpanic"], 0),
     "C17": (["blocking", "late", "erasedblk"], 0, ["blocking", "late", "erasedblk", "hammer"], 60),
@@ -60,7 +60,7 @@ STRESS_SCENARIOS = {
 }
 
 
-STRESS_FEAT = {"C17": ["blocking"], "C14": ["cyclerace", "slowlog"]}
+STRESS_FEAT = {"C17": ["blocking"], "C14": ["cyclerace", "slowlog"], "C20": ["metabort"]}
 
 
 def stress(prop, tier, seed, ctx):
